@@ -94,6 +94,78 @@ def _cls(p):
     return out
 
 
+# ---- the 16-bit data-field limit: exact fit, refused growth, recovery ------------------------------------------
+
+
+def self_consistent(devs, x, conf, tag):
+    """Whatever values the object now reports, its octets are the reference encoding of exactly those values and decode back to them."""
+    o = M.obs_pdu(x, "filedata")
+    q = {"kind": "filedata", "conf": conf, "offset": o["offset"], "data": o["data"], "meta": o["meta"]}
+    want = M.ref_pdu(q)
+    packed = bytes(x.pack())
+    eq(devs, f"{tag}.octets_vs_reported_values", packed[:64] + packed[-8:], want[:64] + want[-8:], "octets are not the encoding of the values the object reports")
+    eq(devs, f"{tag}.len_vs_reported_values", len(packed), len(want))
+    eq(devs, f"{tag}.packet_len", x.packet_len, len(packed))
+    if packed == want:
+        y = M.pdu_class("filedata").unpack(packed)
+        eq(devs, f"{tag}.decodes_back", M.obs_pdu(y, "filedata"), M.want_pdu_obs(q, want))
+
+
+def check_limit(c):
+    from spacepackets.cfdp import pdu as P
+    from spacepackets.cfdp.pdu.file_data import RecordContinuationState, SegmentMetadata
+
+    devs = []
+    conf = c["conf"]
+    overhead = (8 if conf["large"] else 4) + (2 if conf["crc"] else 0)
+    md = bytes(range(c["meta_len"]))
+    fill = lambda n: bytes((i * 7 + 3) & 0xFF for i in range(n))  # noqa: E731
+    if c["k"] == "grow_metadata":
+        # no metadata, file data leaving `room` octets below the limit; adding 1 + meta_len > room octets of metadata must be refused;
+        # the caller then shortens the file data: from then on everything is consistent again
+        n = 65535 - overhead - c["room"]
+        x = P.FileDataPdu(M.build_conf(conf), P.FileDataParams(fill(n), 5, None))
+        self_consistent(devs, x, conf, "exact_fit")
+
+        def grow():
+            x.segment_metadata = SegmentMetadata(RecordContinuationState(2), md)
+            return x.pack()
+
+        expect_raise(devs, "limit.metadata_beyond_16_bit_length", grow, accept=(ValueError,))
+        x.file_data = fill(n - c["meta_len"] - 1 - c["slack"])
+        self_consistent(devs, x, conf, "after_refused_growth_and_shorter_data")
+    else:
+        # metadata present, exact fit; growing the file data by one octet must be refused; shortening again recovers
+        n = 65535 - overhead - 1 - c["meta_len"]
+        x = P.FileDataPdu(M.build_conf(conf), P.FileDataParams(fill(n), 5, SegmentMetadata(RecordContinuationState(1), md)))
+        self_consistent(devs, x, conf, "exact_fit")
+
+        def grow2():
+            x.file_data = fill(n + 1 + c["room"])
+            return x.pack()
+
+        expect_raise(devs, "limit.file_data_beyond_16_bit_length", grow2, accept=(ValueError,))
+        x.file_data = fill(n - c["slack"])
+        self_consistent(devs, x, conf, "after_refused_growth_and_shorter_data")
+        x.segment_metadata = None
+        self_consistent(devs, x, conf, "after_metadata_removed")
+    return devs
+
+
+def enum_limit(tier, shard, nshards, rng):
+    cases = []
+    for crc in (0, 1):
+        for large in (0, 1):
+            conf = {"crc": crc, "large": large, "mode": 1, "dir": 0, "segctrl": 1, "idw": 2, "seqw": 1, "src": 0x0102, "dst": 0xFFFE, "seq": 9}
+            for room, meta_len, slack in ((0, 0, 0), (0, 5, 0), (3, 3, 2), (10, 63, 0), (63, 63, 1)):
+                cases.append({"k": "grow_metadata", "conf": conf, "room": room, "meta_len": meta_len, "slack": slack})
+            for room, meta_len, slack in ((0, 0, 0), (0, 63, 3), (5, 17, 0)):
+                cases.append({"k": "grow_file_data", "conf": conf, "room": room, "meta_len": meta_len, "slack": slack})
+    for i, c in enumerate(cases):
+        if i % nshards == shard:
+            yield c
+
+
 # ---- metadata > 63 refused ---------------------------------------------------------------------
 
 
@@ -153,6 +225,18 @@ CLAUSES = [
         classify=_cls,
         required=["crc on", "crc off", "large file", "empty file data", "segment metadata", "segctrl=1", "large segment", "crc+metadata", "crc+empty", "id width 8"],
         n={"quick": 1200, "thorough": 8000},
+    ),
+    Clause(
+        id="C07.limit",
+        doc="File Data PDUs that fit the 16-bit data-field length exactly; growth beyond it (metadata added / file data extended) is refused; after the caller shortens the data "
+            "again the octets are the reference encoding of the values the object reports and decode back to them",
+        kind="enum",
+        enum=enum_limit,
+        check=check_limit,
+        classify=lambda c: [c["k"]] + (["crc on"] if c["conf"]["crc"] else []) + (["large file"] if c["conf"]["large"] else []),
+        required=["grow_metadata", "grow_file_data", "crc on", "large file"],
+        shards={"quick": 8, "thorough": 8},
+        exhaustive_note="32 listed limit histories (4 header configurations x 8 size relations)",
     ),
     Clause(
         id="C07.metadata_too_long",
